@@ -92,7 +92,11 @@ DisagreementsSync(o, g) ==
        /\ o[n + 1].mem[x + 1].st # 0
        /\ o[n + 1].mem[x + 1].st \notin ExpectedSync(o, g, x) }
 
-MonInit == M = [bad |-> {}, tags |-> {}, dis |-> {}, g |-> [x \in Nodes |-> IF Formed THEN [join |-> 1, leave |-> -1, sil |-> -1] ELSE NoG]]
+\* fl: force-leave claims <<x, time>> aimed at a running member that have not reached it (yet); flx: members ever
+\* force-left while running.  The recorded finding "forceleave_of_running_member" covers exactly: a claim that never
+\* reached its target (it cannot be refuted), a target that went down after being claimed (the refutation may have
+\* died with it) and a claimed target spuriously declared dead while running.  A claim that reached its running target must be refuted and the views must converge.
+MonInit == M = [bad |-> {}, tags |-> {}, fl |-> {}, flx |-> {}, dis |-> {}, g |-> [x \in Nodes |-> IF Formed THEN [join |-> 1, leave |-> -1, sil |-> -1] ELSE NoG]]
 
 \* act = action record; pre/post = observed nodes before/after; g = ground truth after the step
 MonStep(m, act, pre, post, g) ==
@@ -103,6 +107,12 @@ MonStep(m, act, pre, post, g) ==
       selfAlive == \A n \in Nodes : (post[n + 1].up /\ post[n + 1].sstate = 0) => post[n + 1].mem[n + 1].st = 1
       dis == IF act.a = "quiet" THEN Disagreements(post, g)
              ELSE IF act.a = "synced" THEN DisagreementsSync(post, g) ELSE {}
+      flx2 == IF act.a = "forceleave" /\ Running(pre, act.x) THEN m.flx \cup {act.x} ELSE m.flx
+      fl2 == IF act.a = "forceleave" /\ Running(pre, act.x) THEN m.fl \cup {<<act.x, pre[act.n + 1].clock>>}
+             ELSE IF act.a = "deliver" /\ act.ty = 2 /\ act.x = act.n /\ pre[act.n + 1].sstate = 0
+                     /\ act.lt > pre[act.n + 1].mem[act.n + 1].lt
+                    THEN m.fl \ {<<act.x, act.lt>>}
+             ELSE m.fl
       \* a state sync copied a member's "leaving at t" entry as a plain status time: the receiver now
       \* holds time t for a member it still lists alive (or failed), so the leave intent at t itself will be stale
       laundered(n, mm) ==
@@ -111,7 +121,11 @@ MonStep(m, act, pre, post, g) ==
                          /\ post[n + 1].mem[x + 1].lt = pre[mm + 1].mem[x + 1].lt
                          /\ pre[n + 1].mem[x + 1].lt < post[n + 1].mem[x + 1].lt
       newtags ==
-        (IF act.a = "forceleave" /\ Running(pre, act.x) THEN {"forceleave_of_running_member"} ELSE {})
+        (IF act.a \in {"crash", "leave", "leave1", "leave2"} /\ act.n \in m.flx THEN {"forceleave_of_running_member"} ELSE {})
+        \* ... is listed "left" somewhere while still running (declared dead by a failure detector before or after the
+        \* claim): "left" travels on by state sync one past its time, where the refutation may not be newer any more
+        \cup (IF \E x \in flx2, n \in Nodes : Running(post, x) /\ post[n + 1].up /\ post[n + 1].mem[x + 1].st = 3
+                THEN {"forceleave_of_running_member"} ELSE {})
         \* the issuer had not witnessed the target's latest join: the claim's time is not above it
         \cup (IF act.a = "forceleave" /\ pre[act.n + 1].clock <= g0[act.x].join THEN {"forceleave_time_not_above_join"} ELSE {})
         \* memberlist reports a member alive again (flap) after a leave intent newer than its join was applied:
@@ -124,7 +138,10 @@ MonStep(m, act, pre, post, g) ==
                        \cup (IF selfAlive THEN {} ELSE {"C03_self_not_alive"})
                        \cup (IF dis # {} /\ act.a = "quiet" THEN {"C02_views_disagree_when_quiet"} ELSE {})
                        \cup (IF dis # {} /\ act.a = "synced" THEN {"C02_views_disagree_after_sync"} ELSE {}),
-        tags |-> m.tags \cup newtags,
+        tags |-> m.tags \cup newtags
+                  \cup (IF fl2 # {} /\ act.a \in {"quiet", "synced"} THEN {"forceleave_of_running_member"} ELSE {}),
+        fl   |-> fl2,
+        flx  |-> flx2,
         dis  |-> dis,
         g    |-> g ]
 
